@@ -148,7 +148,15 @@ def spaces(tier, seed):
                         yield {"kind": "roi", "w": w, "h": h, "cf": cf, "cl": cl, "rf": rf, "variant": v,
                                "ex": "all" if tier == "thorough" and j % 2 == 0 else (k + j) % 3, "seed": seed}
 
+    # (h, w, bands, dtype, nodata, mask mode, offset, extra, seed) of build_raster
+    specs = [(2, 3, 1, "uint8", -9999, "none", 0, 0, seed), (3, 2, 1, "float32", "NaN", "int16", 1, 1, seed),
+             (2, 3, 2, "int16", 7, "uint8", 2, 2, seed), (4, 5, 1, "uint8", 0, "int16", 3, 0, seed),
+             (2, 3, 3, "float32", -9999, "none", 4, 3, seed)]
+    rewrites = [{"kind": "rewrite", "a": list(a), "b": list(b), "roi_first": rf}
+                for a in specs for b in specs if a is not b for rf in (0, 1)]
     return [
+        {"name": "the same paths written twice with different rasters: the second read describes the second file",
+         "level": 1, "cases": rewrites, "chunk": 2},
         {"name": "get_window: every ROI x margins {0,1,2}^4 on 4x5 and 1x1", "level": 0, "cases": windows, "chunk": 2},
         {"name": "tiny images: every (no-data?, mask value) assignment", "level": 0, "cases": tiny(), "chunk": 64},
         {"name": "rasters: shapes x bands x dtype x nodata x mask mode, position-coded", "level": 1,
@@ -393,6 +401,33 @@ def run_full(case):
     return {"n": 1, "sigs": [sig], "viol": _viol_list(viol)}
 
 
+def run_rewrite(case):
+    """
+    the same paths are written twice with different rasters (a scratch left.tif reused by a caller): the second
+    read must describe the second file, whatever was read from that path before in this process
+    """
+    a = build_raster(*case["a"])
+    b = build_raster(*case["b"])
+    viol = {}
+    with F.case_dir() as d:
+        conf_a = write_inputs(d, a)
+        _read(conf_a)
+        if case.get("roi_first"):
+            _read(conf_a, {"col": {"first": 0, "last": 1}, "row": {"first": 0, "last": 0}, "margins": [0, 0, 0, 0]})
+        import os  # pylint: disable=import-outside-toplevel
+
+        for fn in os.listdir(d):
+            os.remove(os.path.join(d, fn))
+        conf = write_inputs(d, b)
+        ds, err = _read(conf)
+    if ds is None:
+        _viol(viol, "full-read-refused", "path read before with another raster", f"second read raised {err}")
+        return {"n": 1, "sigs": [], "viol": _viol_list(viol)}
+    for clause, cls, detail in REF.compare_full(ds, b):
+        _viol(viol, clause, cls + "/path read before with another raster", detail + " | " + _describe(b))
+    return {"n": 1, "sigs": [f"w|{case['a']}|{case['b']}|{_dig(ds['im'].data)}"], "viol": _viol_list(viol)}
+
+
 def run_roi(case):
     w, h, cf, cl, rf = case["w"], case["h"], case["cf"], case["cl"], case["rf"]
     nb, dtype, nodata, dmode, mdtype = ROI_VARIANTS[case["variant"]]
@@ -445,6 +480,8 @@ def run_case(case):
         return run_windows(case)
     if case["kind"] == "roi":
         return run_roi(case)
+    if case["kind"] == "rewrite":
+        return run_rewrite(case)
     return run_full(case)
 
 
